@@ -72,6 +72,7 @@ def run(F, chk):
             else:
                 rb.violation(key, "%s:%d" % (F.adt(adt)["file"], F.adt(adt)["line"]),
                              "config key %s.%s is deserialised but never read: a file that sets it is accepted and the setting silently dropped" % (s, f))
+    key_template_rule(F, chk)
     # ---------------- R-C20-c --------------------------------------------------
     rc = chk.rule("R-C20-c", "T5", "Config is built only past the H2 buffer test; pairing constraints have rejecting sites", floor=4)
     ic = F.body(CFG + "ConfigBuilder::into_config")
@@ -128,3 +129,54 @@ def run(F, chk):
             re_.ok(key, "", "constructed", nontrivial=False)
         else:
             re_.violation(key, F.body(gm).where(), "the config-to-commands path never constructs RequestType::%s" % v)
+
+
+def key_template_rule(F, chk):
+    """R-C20-f: ConfigState keys HTTP(S) frontends by the Display rendering of the request. Frontends that differ
+    only in the kind of their path rule (prefix / regex / equals) are different routes, so the key must render each
+    PathRuleKind with a different template - otherwise the loader emits both, the state rejects the second as
+    'already exists' and a declared frontend is silently dropped."""
+    r = chk.rule("R-C20-f", "T7", "the frontend state key renders every PathRuleKind differently", floor=3)
+    PRK = "sozu_command_lib::proto::command::PathRuleKind"
+    cands = [p for p in F.paths() if "core::fmt::Display for sozu_command_lib::proto::command::RequestHttpFrontend" in p and p.endswith("::fmt")]
+    if not r.require(cands, "Display for RequestHttpFrontend not found"):
+        return
+    b = F.body(cands[0])
+    r.fn(b.path)
+    import C17
+    arms = None
+    for bi in sorted(b.reachable()):
+        t = b.blocks[bi]["t"]
+        if t["k"] != "switch":
+            continue
+        l = op_local(t["op"])
+        d = b.single_def(l) if l is not None else None
+        if d and d[2] == "assign" and d[3]["k"] == "discr" and d[3]["adt"] == PRK:
+            arms = {int(v): tg for v, tg in t["ts"]}
+    if not r.require(arms, "no switch on PathRuleKind in the key Display"):
+        return
+    templates = {}
+    news = [x for x, t in b.calls() if callee_of(t).startswith("core::fmt::Arguments::<'a>::new")]
+    for var, dv in sorted(F.variant_discr(PRK).items()):
+        if dv not in arms:
+            r.violation("PathRuleKind::%s" % var, b.where(), "PathRuleKind::%s has no explicit arm in the state-key rendering" % var)
+            continue
+        others = [x for x in news]
+        first = [x for x in news if x in b.reach_from([arms[dv]], removed=[y for y in news if y != x])]
+        tpl = set()
+        for x in first[:1]:
+            for a in b.blocks[x]["t"]["args"]:
+                for c in guards.slice_of_operand(b, a)["consts"]:
+                    if c and str(c).startswith("b\""):
+                        tpl.add(str(c))
+        templates[var] = tuple(sorted(tpl))
+    seen = {}
+    for var, tpl in sorted(templates.items()):
+        key = "PathRuleKind::%s" % var
+        if not tpl:
+            r.broke("no format template found for PathRuleKind::%s" % var)
+        elif tpl in seen:
+            r.violation(key, b.where(), "path rules of kind %s and %s are rendered with the same key template %s: two frontends differing only in the rule kind collide in ConfigState and one of them is dropped" % (seen[tpl], var, tpl[0]))
+        else:
+            seen[tpl] = var
+            r.ok(key, b.where(), "template %s" % tpl[0], nontrivial=False)
